@@ -48,7 +48,7 @@ Proof. intros H. rewrite N.land_spec, tb_255. destruct (N.ltb_spec k 8); [apply 
 Lemma u16_plain s x : (s_off s mod 8 = 0)%N -> (s_off s / 8 + 2 <= blen (s_buf s))%N ->
   exists s', add_aligned_u16 s x = Some s' /\ plain s s' 16 (N.testbit x).
 Proof.
-  intros Ha Hc. unfold add_aligned_u16, PyPrims.bind.
+  intros Ha Hc. unfold add_aligned_u16, PyPrims.bind. rewrite (ensure_writable_true s _ _ Hc). cbn [negb].
   destruct (u8_plain s (N.land x 255) Ha) as (s1 & -> & P1); [pose proof (land_255_lt x); lia | lia |].
   destruct P1 as (O1 & L1 & B1).
   destruct (u8_plain s1 (N.land (N.shiftr x 8) 255)) as (s2 & -> & P2);
@@ -63,7 +63,7 @@ Qed.
 Lemma u32_plain s x : (s_off s mod 8 = 0)%N -> (s_off s / 8 + 4 <= blen (s_buf s))%N ->
   exists s', add_aligned_u32 s x = Some s' /\ plain s s' 32 (N.testbit x).
 Proof.
-  intros Ha Hc. unfold add_aligned_u32, PyPrims.bind.
+  intros Ha Hc. unfold add_aligned_u32, PyPrims.bind. rewrite (ensure_writable_true s _ _ Hc). cbn [negb].
   destruct (u16_plain s x Ha) as (s1 & -> & P1); [lia|]. destruct P1 as (O1 & L1 & B1).
   destruct (u16_plain s1 (N.shiftr x 16)) as (s2 & -> & P2); [rewrite O1; lia | unfold blen in *; rewrite L1, O1; lia |].
   exists s2. split; [reflexivity|].
